@@ -7,6 +7,8 @@ set -u
 cd /verif
 [ -z "$(git -C /repo status --short)" ] || { echo "/repo is not clean"; exit 2; }
 seeds="$@"; [ -n "$seeds" ] || seeds=$(ls seeded | grep -v MATRIX)
+# the checks rewrite evidence/<id>.json on every run: keep the evidence of the unchanged tree aside and put it back
+evbak=$(mktemp -d /tmp/evidence-backup.XXXXXX); cp -a evidence/. "$evbak"/
 for name in $seeds; do
   d=seeded/$name
   [ -f $d/patch.diff ] || continue
@@ -33,6 +35,7 @@ for item in res.split('|'):
 json.dump(m,open(p,'w'),indent=1)
 PY
 done
+cp -a "$evbak"/. evidence/ && rm -rf "$evbak"
 python3 - <<'PY'
 import json,os
 rows=[]
